@@ -27,6 +27,11 @@ func TestC01(t *testing.T) {
 		return
 	}
 	if run.Replay == "" {
+		for name, script := range run.CorpusScripts() {
+			if strings.HasPrefix(script[0], "#sw") {
+				sectorCase(run, model, "corpus/"+name, script)
+			}
+		}
 		sectorCases(run, model, run.Scale(1500, 30000))
 	}
 	stx.Main(run, model, "C01", []string{"C01"}, []string{"flat", "flati", "hier", "hier", "ac"}, 2500, 40000)
